@@ -76,6 +76,22 @@ class TheCheck(Check):
                     x = bytes(rng.choice(qa) for _ in range(rng.randrange(1, 24)))
                     qops.append("query %s %02x %02x" % (hexs(x), e, sp))
         sts.append(Stream("query-separators", qops))
+        # the query text lives in the destination table and a pair re-defines the entry that holds it: the
+        # stored text is freed by that put - the parser must not be reading it (exactly sized blocks, ASan)
+        al = []
+        for key in (b"q", b"a"):
+            for n in range(1, 5):
+                for t in itertools.product([key + b"=", key + b"=x", b"b=1", key, b"=", b"%3" ], repeat=n):
+                    al.append("queryalias %s %s 3d 26" % (hexs(b"&".join(t)), hexs(key)))
+            for _ in range(100 if not big else 3000):
+                parts = [rng.choice([key, b"b", b"cc", b""]) + rng.choice([b"=", b""]) + bytes(rng.choice(b"ab%+ 1") for _ in range(rng.choice([0, 2, 30, 300])))
+                         for _ in range(rng.randrange(1, 7))]
+                q = b"&".join(parts)
+                if q:
+                    al.append("queryalias %s %s 3d 26" % (hexs(q), hexs(key)))
+        sts.append(Stream("query-aliased-text", al))
+        from checks import c16
+        sts.append(c16.ledger_stream(rng, 200 if not big else 3000))
         # every single byte and every byte after '%' / '%x'
         one = []
         for c in range(1, 256):
@@ -114,7 +130,7 @@ class TheCheck(Check):
 
     def judge(self, op, line):
         w, f = op.split(), line.split()
-        if w[0] in ("ini", "inif", "ac", "acp", "fread"):
+        if w[0] in ("ini", "inif", "inifp", "ac", "acp", "acpipe", "fread"):
             return c17_parsers.parser_judge(op, line) if c17_parsers is not None else None
         if line.startswith("fault"):
             return "%s on input %s" % (line, op)
@@ -127,6 +143,6 @@ class TheCheck(Check):
         return None
 
     def classify(self, op, detail):
-        if c17_parsers is not None and op.split()[0] in ("ini", "inif", "ac", "acp", "fread"):
+        if c17_parsers is not None and op.split()[0] in ("ini", "inif", "inifp", "ac", "acp", "acpipe", "fread"):
             return c17_parsers.parser_classify(op, detail)
         return "qencode:" + op.split()[0]
